@@ -7,16 +7,13 @@
 From ApolloVerif Require Import Base.Chars Lex.Item Parse.Outcome Parse.Builder Parse.Limits Parse.Monad
   Parse.Grammar Parse.Entry Parse.LosslessDefs Parse.Lossless.
 
-(* the known class: a ty::parse call popped a token with text that is neither a Name nor `[` *)
-Definition Known_D3 (r : presult) : Prop := ne (map tok_data (pr_dropped r)) <> [].
-
 Theorem C02_lossless : forall dbg rl items r,
   Forall item_name_ok items -> eof_terminated items ->
   parse_document_items dbg rl items = POk r -> ~ Known_D3 r ->
   p_text_of (pr_tree r) = concat (map item_data items).
 Proof.
   intros dbg rl items r Hn He E Hk. eapply document_lossless; eauto.
-  destruct (ne (map tok_data (pr_dropped r))) eqn:Hd; [reflexivity|]. exfalso. apply Hk. unfold Known_D3. now rewrite Hd.
+  apply not_known_D3. exact Hk.
 Qed.
 Check C02_lossless : forall dbg rl items r,
   Forall item_name_ok items -> eof_terminated items ->
@@ -32,7 +29,7 @@ Theorem C02_each_item_once : forall dbg rl items r,
   ne (map snd (p_leaves (pr_tree r))) = ne (map item_data items).
 Proof.
   intros dbg rl items r Hn He E Hk. eapply document_chunks; eauto.
-  destruct (ne (map tok_data (pr_dropped r))) eqn:Hd; [reflexivity|]. exfalso. apply Hk. unfold Known_D3. now rewrite Hd.
+  apply not_known_D3. exact Hk.
 Qed.
 Check C02_each_item_once : forall dbg rl items r,
   Forall item_name_ok items -> eof_terminated items ->
@@ -47,7 +44,7 @@ Theorem C02_lossless_type_entry : forall dbg rl items r,
   p_text_of (pr_tree r) = concat (map item_data items).
 Proof.
   intros dbg rl items r Hn He E Hk. eapply type_lossless; eauto.
-  destruct (ne (map tok_data (pr_dropped r))) eqn:Hd; [reflexivity|]. exfalso. apply Hk. unfold Known_D3. now rewrite Hd.
+  apply not_known_D3. exact Hk.
 Qed.
 Check C02_lossless_type_entry : forall dbg rl items r,
   Forall item_name_ok items -> eof_terminated items ->
